@@ -10,9 +10,11 @@ p = os.path.join(V, "tools", "not_applicable.json")
 if os.path.exists(p):
     na_reasons = json.load(open(p))
 
+REVIEWED = set(open(os.path.join(V, "tools", "reviewed.txt")).read().split())
+
 def meta_of(pid):
     f = os.path.join(V, "props", pid.lower() + ".py")
-    if not os.path.exists(f):
+    if not os.path.exists(f) or pid not in REVIEWED:
         return None
     tree = ast.parse(open(f).read())
     meta, claim = None, True
